@@ -111,7 +111,7 @@ theorem c11_all_terminated_clean {s : State} (h : Reachable s)
     revert this hm
     cases (s.conns c).pc <;> simp [terminal, inMap, counted]
 
-example : (run init (openConn 0 ++ [.gone 0, .conn 0 .idleFail, .conn 0 .sockClose, .conn 0 .counterDec,
+example : (run init (openConn 0 ++ [.gone 0, .conn 0 .idleFail, .conn 0 .closeStart, .conn 0 .closeDone, .conn 0 .counterDec,
     .conn 0 .lockAcqU, .conn 0 .delete, .conn 0 .unlockU])).map
       (fun s => (s.counter, s.registered, terminal (s.conns 0).pc)) = some (0, [], true) := by decide
 
@@ -136,6 +136,91 @@ theorem c11_shutdown_nil_served_closed {s : State} (h : Reachable s) (k : CallId
   apply (hi.loc c).closed
   revert hc hun
   cases (s.conns c).pc <;> simp [preReg, counted, pastDec]
+
+/-- "Shutdown reports success only once every connection that was being served has finished AND BEEN CLOSED":
+    when call `k` of `Shutdown` decides to return nil, every connection that was ever registered has its socket
+    closed and its handler is PAST the decrement — which it reaches only through `closeDone`, the RETURN of its
+    `conn.Close()` (`c11_close_returns_before_decrement`).  No handler is about to call `Close` or inside a `Close`
+    that has begun and not returned (a TLS `close_notify` stalled on a peer that does not read, a wrapped connection
+    whose Close takes time): the close has COMPLETED, not merely started.  The state stays like that until the
+    call unlocks (handlers need `connsMu` to register). -/
+theorem c11_shutdown_nil_implies_all_closes_completed {s : State} (h : Reachable s) (k : CallId)
+    (hs : (s.shuts k).pc = .retNil) (c : ConnId) (hc : preReg (s.conns c).pc = false) :
+    (s.conns c).sockClosed = true ∧ pastDec (s.conns c).pc = true ∧
+      (s.conns c).pc ≠ .deferredClose ∧ (s.conns c).pc ≠ .closingSock := by
+  have hun := (c11_shutdown_nil_only_drained h k hs).2 c
+  refine ⟨c11_shutdown_nil_served_closed h k hs c hc, ?_, ?_, ?_⟩
+  · revert hc hun
+    cases (s.conns c).pc <;> simp [preReg, counted, pastDec]
+  · intro hp; rw [hp] at hun; simp [counted] at hun
+  · intro hp; rw [hp] at hun; simp [counted] at hun
+
+/-- the same, read the other way: while some handler is inside its `conn.Close()` — for however long — no call of
+    `Shutdown` is at `return nil` -/
+theorem c11_close_in_progress_blocks_nil {s : State} (h : Reachable s) (c : ConnId)
+    (hp : (s.conns c).pc = .closingSock) (k : CallId) : (s.shuts k).pc ≠ .retNil ∧ 1 ≤ s.counter := by
+  constructor
+  · intro hs
+    exact (c11_shutdown_nil_implies_all_closes_completed h k hs c (by rw [hp]; rfl)).2.2.2 hp
+  · have hi := inv_reachable h
+    rw [hi.counter]
+    exact cnt_pos_of_mem (mem_ids_of_pc hi (by rw [hp]; simp)) (by rw [hp]; rfl)
+
+/-- an exchange completes while Shutdown polls; the handler's `conn.Close()` has begun and does not return -/
+def closeStalled : List Action :=
+  openConn 0 ++ toOrigin 0 {} ++ beginShutdown ++
+    [.shutPoll 0, .originAnswer 0, .conn 0 .respReady, .conn 0 .writeHead, .conn 0 .writeDone, .conn 0 .closeStart,
+     .shutTimer 0, .shutPoll 0]
+
+-- the response is written, the close is under way: the counter is still 1, Shutdown goes on waiting, it cannot return
+example : (run init closeStalled).map (fun s => ((s.shuts 0).pc, s.counter, (s.conns 0).pc, (s.conns 0).sockClosed)) =
+    some (.selecting, 1, .closingSock, false) := by decide
+example : (run init (closeStalled ++ [.shutUnlock 0])).isSome = false := by decide
+-- the decrement is not enabled before the close has returned
+example : (run init (closeStalled ++ [.conn 0 .counterDec])).isSome = false := by decide
+-- … the close returns, THEN the decrement, then the poll that finds 0
+example : (run init (closeStalled ++ [.conn 0 .closeDone, .conn 0 .counterDec, .shutTimer 0, .shutPoll 0, .shutUnlock 0,
+    .shutdownRet 0 none])).map (fun s => ((s.shuts 0).pc, s.counter, (s.conns 0).pc, (s.conns 0).sockClosed)) =
+    some (.doneNil, 0, .waitingForLockUnreg, true) := by decide
+
+/-- WITNESS for the "bookkeeping first" variant (`Variant.decBeforeClose`: the three stacked defers of `handleLoop`
+    merged into one deferred func that runs `connsWg.Add(-1)` BEFORE `conn.Close()`): the same exchange completes,
+    the handler decrements and enters `conn.Close()`, which does not return; Shutdown's next poll finds 0 and the
+    call returns nil to its caller — with the handler still inside `Close` and the socket open. -/
+theorem c11_dec_before_close_variant_witness :
+    (runV { decBeforeClose := true } init (openConn 0 ++ toOrigin 0 {} ++ beginShutdown ++
+      [.shutPoll 0, .originAnswer 0, .conn 0 .respReady, .conn 0 .writeHead, .conn 0 .writeDone, .conn 0 .counterDec,
+       .shutTimer 0, .shutPoll 0, .shutUnlock 0, .shutdownRet 0 none])).map
+      (fun s => ((s.shuts 0).pc, s.counter, (s.conns 0).pc, (s.conns 0).sockClosed, (s.conns 0).unseen)) =
+    some (.doneNil, 0, .closingSock, false, [true]) := by decide
+
+/-- the statement of `c11_shutdown_nil_implies_all_closes_completed` for that variant (for the states its runs
+    reach) -/
+def c11_dec_before_close_variant_full : Prop :=
+  ∀ (as : List Action) (s : State) (k : CallId) (c : ConnId), runV { decBeforeClose := true } init as = some s →
+    (s.shuts k).pc = .retNil → preReg (s.conns c).pc = false → (s.conns c).sockClosed = true
+
+/-- … is FALSE -/
+theorem c11_dec_before_close_variant_full_false : ¬ c11_dec_before_close_variant_full := by
+  intro h
+  have hsome : (runV { decBeforeClose := true } init (openConn 0 ++ toOrigin 0 {} ++ beginShutdown ++
+      [.shutPoll 0, .originAnswer 0, .conn 0 .respReady, .conn 0 .writeHead, .conn 0 .writeDone, .conn 0 .counterDec,
+       .shutTimer 0, .shutPoll 0])).isSome = true := by decide
+  obtain ⟨s, hs⟩ := Option.isSome_iff_exists.mp hsome
+  have hv : (runV { decBeforeClose := true } init (openConn 0 ++ toOrigin 0 {} ++ beginShutdown ++
+      [.shutPoll 0, .originAnswer 0, .conn 0 .respReady, .conn 0 .writeHead, .conn 0 .writeDone, .conn 0 .counterDec,
+       .shutTimer 0, .shutPoll 0])).map (fun s => ((s.shuts 0).pc, preReg (s.conns 0).pc, (s.conns 0).sockClosed)) =
+      some (.retNil, false, false) := by decide
+  rw [hs] at hv
+  simp only [Option.map_some, Option.some.injEq, Prod.mk.injEq] at hv
+  have := h _ s 0 0 hs hv.1 hv.2.1
+  rw [hv.2.2] at this
+  cases this
+
+-- with the variant off the decrement is not enabled at the deferred close (the code itself is `step`)
+example : (runV {} init (openConn 0 ++ toOrigin 0 {} ++ beginShutdown ++
+    [.shutPoll 0, .originAnswer 0, .conn 0 .respReady, .conn 0 .writeHead, .conn 0 .writeDone,
+     .conn 0 .counterDec])).isSome = false := by decide
 
 /-- call `k` comes to `return nil` in ONE way: its own poll finds the counter at 0.  Not because the
     proxy was already closing when it was called (a second Shutdown after one that gave up, a Shutdown
@@ -222,7 +307,7 @@ example : (run init (openConn 0 ++ toOrigin 0 {} ++ beginShutdown ++
 -- the same exchange completes (with `Connection: close`), then Shutdown returns nil
 example : (run init (openConn 0 ++ toOrigin 0 {} ++ beginShutdown ++
     [.shutPoll 0, .originAnswer 0, .conn 0 .respReady, .conn 0 .writeHead, .conn 0 .writeDone,
-     .conn 0 .sockClose, .conn 0 .counterDec, .shutTimer 0, .shutPoll 0, .shutUnlock 0, .shutdownRet 0 none,
+     .conn 0 .closeStart, .conn 0 .closeDone, .conn 0 .counterDec, .shutTimer 0, .shutPoll 0, .shutUnlock 0, .shutdownRet 0 none,
      .respSeen 0 true, .closedSeen 0])).map (view 0) =
     some (0, true, .waitingForLockUnreg, true, .doneNil) := by decide
 
@@ -241,7 +326,7 @@ example : (run init (secondShutdown ++ [.ctxExpire 1])).isSome = false := by dec
 
 -- … until the exchange has completed and the connection is closed: then it returns nil
 example : (run init (secondShutdown ++
-    [.originAnswer 0, .conn 0 .respReady, .conn 0 .writeHead, .conn 0 .writeDone, .conn 0 .sockClose,
+    [.originAnswer 0, .conn 0 .respReady, .conn 0 .writeHead, .conn 0 .writeDone, .conn 0 .closeStart, .conn 0 .closeDone,
      .conn 0 .counterDec, .shutTimer 1, .shutPoll 1, .shutUnlock 1, .shutdownRet 1 none])).map
       (fun s => ((s.shuts 1).pc, s.counter, (s.conns 0).sockClosed, (s.conns 0).unseen)) =
     some (.doneNil, 0, true, [true]) := by decide
@@ -437,13 +522,21 @@ theorem c11_close_after_close_response {s s' : State} {c : ConnId}
     `conn.Close()` -/
 theorem c11_deferred_close_closes_socket {s s' : State} {c : ConnId} {a : CAct}
     (hp : (s.conns c).pc = .deferredClose) (hst : step s (.conn c a) = some s') :
-    a = .sockClose ∧ (s'.conns c).sockClosed = true ∧ (s'.conns c).pc = .counterDec := by
+    a = .closeStart ∧ (s'.conns c).pc = .closingSock ∧ s'.counter = s.counter := by
+  obtain ⟨x, e, hx, rfl⟩ := step_conn_eq hst
+  cstep_cases hx <;> simp_all [applyEff, setConn]
+
+/-- … and the only step of a handler inside `conn.Close()` is the RETURN of that call: the socket is closed,
+    the counter has not been touched yet (`defer p.connsWg.Add(-1)` runs after `defer conn.Close()`) -/
+theorem c11_close_returns_before_decrement {s s' : State} {c : ConnId} {a : CAct}
+    (hp : (s.conns c).pc = .closingSock) (hst : step s (.conn c a) = some s') :
+    a = .closeDone ∧ (s'.conns c).sockClosed = true ∧ (s'.conns c).pc = .counterDec ∧ s'.counter = s.counter := by
   obtain ⟨x, e, hx, rfl⟩ := step_conn_eq hst
   cstep_cases hx <;> simp_all [applyEff, setConn]
 
 -- a GET at its origin when shutdown begins: answered, written with `Connection: close`, closed
 example : (run init (openConn 0 ++ toOrigin 0 {} ++ beginShutdown ++
-    [.originAnswer 0, .conn 0 .respReady, .conn 0 .writeHead, .conn 0 .writeDone, .conn 0 .sockClose])).map
+    [.originAnswer 0, .conn 0 .respReady, .conn 0 .writeHead, .conn 0 .writeDone, .conn 0 .closeStart, .conn 0 .closeDone])).map
       (fun s => ((s.conns 0).pc, (s.conns 0).unseen, (s.conns 0).sockClosed)) =
     some (.counterDec, [true], true) := by decide
 
@@ -674,7 +767,7 @@ example : (run initNoLimit (cancelWithRequestAtOrigin ++ [.sig 10 0, .sig 28 0, 
 
 example : (run initNoLimit (cancelWithRequestAtOrigin ++
     [.shutTimer 0, .shutPoll 0, .originAnswer 0, .conn 0 .respReady, .conn 0 .writeHead, .conn 0 .writeDone,
-     .conn 0 .sockClose, .conn 0 .counterDec, .shutTimer 0, .shutPoll 0, .shutUnlock 0, .runAfterShutdown 0, .runRet,
+     .conn 0 .closeStart, .conn 0 .closeDone, .conn 0 .counterDec, .shutTimer 0, .shutPoll 0, .shutUnlock 0, .runAfterShutdown 0, .runRet,
      .respSeen 0 true, .closedSeen 0])).map (fun s => (view 0 s, s.runner, s.closes 0)) =
     some ((0, true, .waitingForLockUnreg, true, .doneNil), .finished, .idle) := by decide
 
@@ -784,13 +877,13 @@ example : (run init (connectDuringShutdown 0)).map
 -- connection; Shutdown returns nil
 example : (run init (connectDuringShutdown 0 ++
     [.respSeen 0 false, .conn 0 .relay, .echoSeen 0, .conn 0 .relay, .echoSeen 0, .gone 0,
-     .conn 0 .tunnelEnd, .conn 0 .sockClose, .conn 0 .counterDec, .shutTimer 0, .shutPoll 0, .shutUnlock 0,
+     .conn 0 .tunnelEnd, .conn 0 .closeStart, .conn 0 .closeDone, .conn 0 .counterDec, .shutTimer 0, .shutPoll 0, .shutUnlock 0,
      .shutdownRet 0 none])).map (view 0) =
     some (0, true, .waitingForLockUnreg, true, .doneNil) := by decide
 
 -- … or the target ends it
 example : (run init (connectDuringShutdown 0 ++
-    [.respSeen 0 false, .conn 0 .relay, .echoSeen 0, .originEnd 0, .conn 0 .tunnelEnd, .conn 0 .sockClose,
+    [.respSeen 0 false, .conn 0 .relay, .echoSeen 0, .originEnd 0, .conn 0 .tunnelEnd, .conn 0 .closeStart, .conn 0 .closeDone,
      .closedSeen 0, .conn 0 .counterDec, .shutTimer 0, .shutPoll 0, .shutUnlock 0, .shutdownRet 0 none])).map (view 0) =
     some (0, true, .waitingForLockUnreg, true, .doneNil) := by decide
 
@@ -800,7 +893,7 @@ example : (run init (connectDuringShutdown 0 ++
     [.respSeen 0 false, .conn 0 .relay, .echoSeen 0, .ctxExpire 0, .shutCtx 0, .shutUnlock 0,
      .shutdownRet 0 (some .deadline),
      .closeCall 0, .closeLock 0, .closeCloseCh 0, .closeConn 0 0, .closeAll 0, .closeUnlock 0, .closeRet 0,
-     .conn 0 .tunnelEnd, .conn 0 .sockClose, .closedSeen 0])).map (view 0) =
+     .conn 0 .tunnelEnd, .conn 0 .closeStart, .conn 0 .closeDone, .closedSeen 0])).map (view 0) =
     some (1, true, .counterDec, true, .doneErr) := by decide
 
 -- nothing can end the tunnel while both endpoints stay and Close has not been called
@@ -809,7 +902,7 @@ example : (run init (connectDuringShutdown 0 ++ [.conn 0 .tunnelEnd])).isSome = 
 -- a tunnel established before the shutdown behaves the same
 example : (run init (openConn 0 ++ toOrigin 0 { connect := true } ++
     [.originAnswer 0, .conn 0 .respReady, .conn 0 .writeHead] ++ beginShutdown ++
-    [.shutPoll 0, .conn 0 .relay, .echoSeen 0, .gone 0, .conn 0 .tunnelEnd, .conn 0 .sockClose,
+    [.shutPoll 0, .conn 0 .relay, .echoSeen 0, .gone 0, .conn 0 .tunnelEnd, .conn 0 .closeStart, .conn 0 .closeDone,
      .conn 0 .counterDec, .shutTimer 0, .shutPoll 0, .shutUnlock 0, .shutdownRet 0 none])).map (view 0) =
     some (0, true, .waitingForLockUnreg, true, .doneNil) := by decide
 
@@ -1062,7 +1155,7 @@ theorem c11_empty_signals_no_close_before_deadline {s : State} (h : Reachable s)
 -- the drain, nothing happens; the origin answers, the exchange completes in full, Shutdown returns nil, run returns
 example : (run (initCfg false [10]) (cancelWithRequestAtOrigin ++
     [.sig 28 0, .sig 23 0, .shutTimer 0, .sig 12 0, .shutPoll 0, .originAnswer 0, .conn 0 .respReady, .conn 0 .writeHead,
-     .conn 0 .writeDone, .conn 0 .sockClose, .conn 0 .counterDec, .shutTimer 0, .shutPoll 0, .shutUnlock 0,
+     .conn 0 .writeDone, .conn 0 .closeStart, .conn 0 .closeDone, .conn 0 .counterDec, .shutTimer 0, .shutPoll 0, .shutUnlock 0,
      .runAfterShutdown 0, .runRet, .respSeen 0 true, .closedSeen 0])).map
       (fun s => (view 0 s, (s.shuts 0).done, s.closes 0)) =
     some ((0, true, .waitingForLockUnreg, true, .doneNil), none, .idle) := by decide
@@ -1070,7 +1163,7 @@ example : (run (initCfg false [10]) (cancelWithRequestAtOrigin ++
 -- the same with NO shutdown signals configured (an embedder's own configuration)
 example : (run init (cancelWithRequestAtOrigin ++
     [.sig 28 0, .sig 10 0, .shutTimer 0, .shutPoll 0, .originAnswer 0, .conn 0 .respReady, .conn 0 .writeHead,
-     .conn 0 .writeDone, .conn 0 .sockClose, .conn 0 .counterDec, .shutTimer 0, .shutPoll 0, .shutUnlock 0,
+     .conn 0 .writeDone, .conn 0 .closeStart, .conn 0 .closeDone, .conn 0 .counterDec, .shutTimer 0, .shutPoll 0, .shutUnlock 0,
      .runAfterShutdown 0, .runRet, .respSeen 0 true, .closedSeen 0])).map
       (fun s => (view 0 s, (s.shuts 0).done, s.closes 0)) =
     some ((0, true, .waitingForLockUnreg, true, .doneNil), none, .idle) := by decide
